@@ -89,6 +89,9 @@ def _impl_one(op):
         return canon.impl_print(mode, tname, cc, enc, data)
     if kind == "FRONT":
         return canon.impl_front(op[1], op[2])
+    if kind == "E2O":
+        _, mode, tname, cc, enc, data = op
+        return canon.impl_e2o(mode, tname, cc, enc, data)
     if kind == "SEQ":
         return canon.impl_seq(op[1])
     if kind == "TRIM":
@@ -121,6 +124,8 @@ def op_line(op):
         return "TRIM " + ";".join(bytes(p).hex() or "-" for p in op[1])
     if op[0] == "PRINT":
         return "PRINT" + canon.dec_op(*op[1:])[3:]
+    if op[0] == "E2O":
+        return "E2O" + canon.dec_op(*op[1:])[3:]
     if op[0] == "DECU":
         return "DECU" + canon.dec_op(*op[1:])[3:]
     if op[0] in ("INT", "BITS", "INTP"):
